@@ -539,7 +539,28 @@ type input struct {
 	skipEntry bool // only the listed variants (the entry variant has been evaluated for this text before)
 }
 
+// Gate "import-hang": while the parser hang behind `import .. from <ident>` followed by a lexer
+// error is open, texts that look like it are not evaluated (each costs the full hang budget of
+// about half a minute); importHang over-approximates "the next token is a lexer error".
+var importHang = regexp.MustCompile("from\\s*@?\\s*[A-Za-z_][A-Za-z_0-9]*(?:\\s*:\\s*[A-Za-z_0-9]*)*\\s*[\\\\`~\"'\\x00-\\x08\\x0b\\x0c\\x0e-\\x1f\\x7f-\\x{10ffff}]")
+
+func gatedText(texts ...string) bool {
+	if !pk.GateOpen("import-hang") {
+		return false
+	}
+	for _, t := range texts {
+		if importHang.MatchString(t) {
+			pk.Gate("import-hang")
+			return true
+		}
+	}
+	return false
+}
+
 func evaluate(in input, report reporter) {
+	if gatedText(in.text, in.module) {
+		return
+	}
 	if len(in.text) > maxText || len(in.module) > maxText {
 		pk.Discard("size>64KiB")
 		return
